@@ -78,6 +78,12 @@ fn main() {
       }
     }
   } else if let Some((n, a)) = aux {
+    // an auxiliary child never outlives its usefulness: if the worker that started it is killed (watchdog) while the
+    // library spins or blocks in here, nobody would reap it
+    std::thread::spawn(|| {
+      std::thread::sleep(std::time::Duration::from_secs(std::env::var("VERIF_AUX_MAX_S").ok().and_then(|v| v.parse::<u64>().ok()).unwrap_or(900)));
+      std::process::exit(3);
+    });
     p.aux(&env, &n, &a)
   } else if let Some(f) = replay {
     run_replay(p.as_ref(), &env, &f)
